@@ -241,5 +241,3 @@ func summarize(a core.Ammo) string {
 	req, sample := ga.Request()
 	return ReqSummary(req, sample.Tags())
 }
-
-func oracleJSON(b []byte) string { return "0" }
